@@ -9,6 +9,7 @@ sweep's prelude sets the objective to zero) - the frame that makes steps indepen
 import z3
 import cobra  # noqa
 from .common import *  # noqa
+from . import c15_dictlist  # noqa  (DictList contracts used at call sites)
 from . import c01_lp as C1
 from . import c04_status as C4
 from pyvc.values import VReal, xr_eq
